@@ -88,6 +88,14 @@ func orderVals() []Dec {
 			v = append(v, finDec(n, bigInt(ce[0]), int(ce[1])))
 		}
 	}
+	// the same small values and a zero in heap-backed storage
+	for _, ce := range [][2]int64{{0, 0}, {0, -3}, {1, 0}, {100, -2}, {12, 0}} {
+		for _, n := range []bool{false, true} {
+			d := finDec(n, bigInt(ce[0]), int(ce[1]))
+			d.Hp = true
+			v = append(v, d)
+		}
+	}
 	return v
 }
 
@@ -162,6 +170,9 @@ func init() {
 				y.N = x.N
 			}
 			g.emit(mkO(x, y), "seeded")
+			if i%5 == 0 { // the same pair again, swapped: an operand modified by the first comparison shows here
+				g.emit(mkO(y, x), "seeded")
+			}
 		}
 		// relational matrices
 		m := g.pick(3000, 100000)
